@@ -18,9 +18,16 @@ def section(notes, pats):
 
 for d in sorted(glob.glob(os.path.join(ROOT, "seeded", "*"))):
     fj = os.path.join(d, "final.json")
-    if not os.path.isfile(fj):
+    sj, dj = os.path.join(d, "suite.json"), os.path.join(d, "detect.json")
+    if os.path.isfile(fj):
+        fin = json.load(open(fj))
+    elif os.path.isfile(sj) and os.path.isfile(dj):
+        fin = json.load(open(sj))
+        det_part = json.load(open(dj))
+        fin["detection"] = det_part.get("detection", {})
+        fin["route"] = det_part.get("route", "harness copy rebuilt against the patched scratch worktree")
+    else:
         continue
-    fin = json.load(open(fj))
     notes = open(os.path.join(d, "notes.md"), errors="replace").read() if os.path.isfile(os.path.join(d, "notes.md")) else ""
     sid = os.path.basename(d)
     prop = sid.split("-")[0]
@@ -41,14 +48,20 @@ for d in sorted(glob.glob(os.path.join(ROOT, "seeded", "*"))):
             "patch_applies_to_head": fin.get("patch_applies"),
             "pinned_suite_with_patch (cargo test --workspace --no-fail-fast --offline, passed failed)": fin.get("suite_passed_failed"),
             "demo.rs with patch (cargo test --test, exit; 101 = fails as intended)": fin.get("demo_exit_with_patch"),
-            "demo.rs without patch": "exit 0 (confirmed when the change was delivered)",
+            "demo.rs without patch": ("exit %s" % fin["demo_exit_without_patch"]) if "demo_exit_without_patch" in fin else "exit 0 (confirmed in the first verification run, see history)",
+            "detection_route": fin.get("route", "harness copy rebuilt against the patched scratch worktree"),
             "checks (quick tier, seed 1, harness rebuilt against the patched worktree)": {p: {"exit": r.get("exit"), "sub_checks_reporting": r.get("sub_checks_reporting"), "first_violation": r.get("first_violation", "")[:400]} for p, r in det.items()},
         },
         "detected": own.get("exit") == 1,
         "detected_by": detected_by,
     }
+    hist_file = "/root/work/seeded_history.json"
     extra = os.path.join(d, "history.json")
+    if os.path.isfile(hist_file):
+        h = json.load(open(hist_file)).get(sid)
+        if h:
+            json.dump(sorted(h, key=lambda x: x["run"]), open(extra, "w"), indent=1)
     if os.path.isfile(extra):
-        meta["history"] = json.load(open(extra))
+        meta["earlier_runs (before the checks were strengthened; same patch)"] = json.load(open(extra))
     json.dump(meta, open(os.path.join(d, "meta.json"), "w"), indent=1, ensure_ascii=False)
     print(sid, "detected" if meta["detected"] else "MISSED", detected_by, fin.get("suite_passed_failed"), fin.get("demo_exit_with_patch"))
